@@ -359,3 +359,26 @@ PROPS["C19"] = {
         "native records are delimited by their own random boundary id: logged data that merely looks like a boundary is content",
     ],
 }
+
+RACE_ENV = {"GORACE": "halt_on_error=1 exitcode=66"}
+
+PROPS["C06"] = {
+    "level": "exploration",
+    "runs": [run("TestC06", (12, 3), (250, 6), variant="race", env=RACE_ENV),
+             run("TestC06", (4, 1), (120, 4), variant="racemp", env=RACE_ENV, tiers=("thorough",))],
+    "cap_s": {"quick": 900, "thorough": 7200},
+    "replay_variant": "race",
+    "rule": "cases = generated configuration (rules sharing transformation chains, @pm / @rx / @restpath, a rule with >=3 static exclusions, "
+            "ctl:ruleRemoveTargetById hitting it, chains, setvar counters, a threshold deny rule, JSON audit log through one serial writer) "
+            "and workload: 2..16 goroutines x 5..40 transactions each on one shared WAF over 2..5 requests, 0..2 goroutines building and "
+            "closing further WAFs of the same configuration meanwhile, GOMAXPROCS in {2,4,16}; binary built with -race (thorough: also with "
+            "-tags coraza.rule.multiphase_evaluation); oracle = no race report (GORACE halt_on_error), no panic, no deadlock (120 s), every "
+            "concurrent transaction's canonical outcome equals the outcome of the same request run alone on a fresh WAF; non-trivial = at "
+            "least two transactions were in flight together (measured)",
+    "essential": {"all": ["overlap-observed", "rule-with-spare-exception-capacity", "runtime-target-exclusion", "shared-pm", "chain", "concurrent-waf-builds"]},
+    "assumptions": COMMON_ASSUME + [
+        "the Go scheduler is not controlled: the race detector reports happens-before violations on the paths the workload drives, not on all interleavings",
+        "a data race aborts the process; the workload being run is written to disk first and becomes the replay file together with the shard log",
+        "mutating a WAF after construction and setenv are out of scope (documented as unsupported / process-wide)",
+    ],
+}
